@@ -5,6 +5,10 @@ import json, subprocess
 BASELINE = json.load(open('/root/.vp/BASELINE.json'))['cmd']
 
 CHECKS = {
+ "C18": dict(level="model_checking", design="DESIGN.md §4 C18",
+   text="Explicit-state breadth-first search over every legal sequence (depth 5, thorough 6) of 37 memory operations as the VM issues them - push bursts crossing every 128-slot boundary, pops, frame capture, calls with narrow and wide frames and old/new captured frames, returns, local and global writes, forking a context into a fresh or a recycled memory, switching, destroying - executed on the real memory.Type by replaying each path on a fresh instance; after every transition the whole live content of every memory, the accessor views and every captured frame are compared with a list-of-frames model. Plus recursion to depth 100000.",
+   note="State key = bookkeeping only (sound by data independence); bounded to 3 live memories, 3 frames and 3 captured frames per state; sequences longer than the depth bound are not covered.",
+   technique="explicit-state BFS over the real memory object's operations (path replay) against a reference model, with canonical state deduplication"),
  "C03": dict(level="exploration", design="DESIGN.md §4 C03",
    text="Differential purity check on the real VM: each of a set of side-effect-free functions (directed shapes around closures, captured-variable updates after stack growth, loops, generators, wide frames at every allocation boundary, plus every expression body of up to 2 (3) nodes) is called in 15 dynamic contexts after every history of up to 2 (3) steps from a 9-step alphabet; each observation must equal what the same call gives as the only statement of a fresh session, which is anchored once per function in the reference model.",
    note="Trusts the reference model only for the baseline of each function; all other comparisons are between runs of the real VM. Functions, contexts and histories outside the alphabets are not covered.",
